@@ -394,7 +394,13 @@ class SymReal:
 
     def __int__(self):
         """int(x): fork over the candidate integers of the context."""
+        v = z3.simplify(self.t)
+        if z3.is_rational_value(v):
+            from fractions import Fraction
+            return int(Fraction(v.numerator_as_long(), v.denominator_as_long()))
         c = ctx()
+        if getattr(c, 'int_fallback', None) is not None:
+            return c.int_fallback(self)
         for k in c.int_candidates:
             # python int() truncates towards zero
             cond = z3.And(self.t >= k, self.t < k + 1) if k >= 0 else z3.And(self.t > k - 1, self.t <= k)
